@@ -120,7 +120,22 @@ def examine(case):
             out.extend(evaluate(p.c, m, p.hist, p.float_heights, p.observers))
         else:
             out.extend(undecided(p))
+        out.extend(height_drift(p))
     return out
+
+
+def height_drift(p):
+    """The heights on the card are the heights the bar was set to ("an athlete's best is the greatest height they ever
+    cleared" is about those)."""
+    if not p.bad_height:
+        return []
+    case = {'kind': 'history', 'bibs': list(p.bibs), 'calls': [hjsearch.enc(x) for x in p.hist]}
+    if p.float_heights:
+        case['float_heights'] = True
+    if p.observers:
+        case['observers'] = True
+    bh, p.bad_height = p.bad_height, None
+    return [V('best-is-greatest-height-cleared', ['height-recorded-differs-from-height-given'], case, bh[1], bh[0])]
 
 
 def undecided(p):
@@ -202,6 +217,7 @@ class ImplPlayer(object):
     def __init__(self, n, float_heights=False, observers=False):
         self.float_heights = float_heights
         self.observers = observers        # read the card / rankings / trial list after every call (reading changes nothing)
+        self.bad_height = None            # a bar recorded at another height than the one given
         self.last_h = None
         self.c = hjimpl.new_comp()
         self.bibs = BIBS[:n]
@@ -228,6 +244,11 @@ class ImplPlayer(object):
         self.hist.append(call)
         if call[0] == 'bar':
             self.last_h = call[1]         # the exact height, whatever carrier the library was given
+            try:
+                if abs(float(self.c.heights[-1]) - float(call[1])) > 1e-9:
+                    self.bad_height = [str(call[1]), repr(self.c.heights[-1])]
+            except Exception:
+                pass
         if self.c.state == 'jumpoff' and self.first_jo is None:
             self.first_jo = len(self.c.heights)     # the next bar is the first jump-off height
         return True
@@ -276,6 +297,8 @@ class M(object):
 
 
 def check_decided(ctx, p):
+    if p.bad_height:
+        ctx.violations(height_drift(p))
     if p.c.state not in ('finished', 'won', 'drawn'):
         vs = undecided(p)
         if vs:
